@@ -73,6 +73,9 @@ type c10Gen struct {
 	TLCSeed  int64 // simulate
 	Keep     func(line string) bool
 	Faults   string
+	CECtxs   []string // HostileConstExpr: contexts (nil = all)
+	CEForms  []string // HostileConstExpr: operand forms (nil = all three)
+	CEShapes []string // HostileConstExpr: shapes (nil = all)
 }
 
 func c10Set(xs []string) string {
@@ -96,8 +99,12 @@ func (g c10Gen) cfg(invs bool) string {
 	if f == "" {
 		f = "{}"
 	}
-	s := fmt.Sprintf("SPECIFICATION Spec\nCONSTANTS\n SeedLen <- MCSeedLen\n SeedSet = %s\n MaxEdits = %d\n Mode = \"%s\"\n Classes = %s\n Depths = %s\n Lengths = %s\n MaxOff = 9\n Faults = %s\nCHECK_DEADLOCK FALSE\n",
-		c10IntSet(g.Seeds), g.MaxEdits, g.Mode, c10Set(g.Classes), c10IntSet(g.Depths), c10IntSet(g.Lengths), f)
+	forms := g.CEForms
+	if len(forms) == 0 {
+		forms = []string{"direct", "named", "computed"}
+	}
+	s := fmt.Sprintf("SPECIFICATION Spec\nCONSTANTS\n SeedLen <- MCSeedLen\n SeedLits <- MCSeedLits\n SeedSet = %s\n MaxEdits = %d\n Mode = \"%s\"\n Classes = %s\n Depths = %s\n Lengths = %s\n MaxOff = 9\n CECtxSel = %s\n CEForms = %s\n CEShapes = %s\n Faults = %s\nCHECK_DEADLOCK FALSE\n",
+		c10IntSet(g.Seeds), g.MaxEdits, g.Mode, c10Set(g.Classes), c10IntSet(g.Depths), c10IntSet(g.Lengths), c10Set(g.CECtxs), c10Set(forms), c10Set(g.CEShapes), f)
 	if invs {
 		s += "INVARIANTS TypeOK WithinBudget LenSane\n"
 	}
@@ -106,7 +113,7 @@ func (g c10Gen) cfg(invs bool) string {
 
 var (
 	c10TokenClasses = []string{"DeleteToken", "DuplicateToken", "SwapTokens", "ReplaceToken", "InsertToken", "TruncateTok", "TruncateIn", "RawBytes", "RawFill"}
-	c10BuildClasses = []string{"Nest", "LongChain", "HugeLiteral", "HugeArray", "SelfReference"}
+	c10BuildClasses = []string{"Nest", "LongChain", "HugeLiteral", "HugeArray", "SelfReference", "HostileConstExpr"}
 	c10AllClasses   = append(append([]string{}, c10TokenClasses...), c10BuildClasses...)
 )
 
@@ -206,7 +213,7 @@ func c10SelfTest(c *core.Ctx) []c10Env {
 	}
 	jobs = append(jobs, func() { // input-space model: depth clamp
 		g := c10Gen{Mode: "exhaustive", Seeds: []int{1}, MaxEdits: 1, Classes: []string{"Nest"}, Depths: []int{20000}, Lengths: []int{8}, Faults: `{"NoClamp"}`}
-		r, err := c.RunTLC(core.TLCOpts{Spec: "HostileMC", CfgText: g.cfg(true), Files: map[string][]byte{"HostileMC.tla": []byte(c10MC([]int{0}))}, Timeout: 10 * time.Minute})
+		r, err := c.RunTLC(core.TLCOpts{Spec: "HostileMC", CfgText: g.cfg(true), Files: map[string][]byte{"HostileMC.tla": []byte(c10MC([]int{0}, nil))}, Timeout: 10 * time.Minute})
 		if err != nil || !strings.Contains(r.Violated, "Invariant WithinBudget is violated") {
 			c.BrokenF("Hostile self-test: fault NoClamp was not caught (%v %s %s)", err, r.Violated, r.Err)
 		}
@@ -272,12 +279,20 @@ func c10SelfTest(c *core.Ctx) []c10Env {
 	return env
 }
 
-func c10MC(seedLen []int) string {
+func c10MC(seedLen []int, seedLits [][]int) string {
 	q := make([]string, len(seedLen))
+	l := make([]string, len(seedLen))
 	for i, x := range seedLen {
 		q[i] = fmt.Sprint(x)
+		var ps []string
+		if i < len(seedLits) {
+			for _, p := range seedLits[i] {
+				ps = append(ps, fmt.Sprint(p))
+			}
+		}
+		l[i] = "<<" + strings.Join(ps, ", ") + ">>"
 	}
-	return "---- MODULE HostileMC ----\nEXTENDS Hostile\nMCSeedLen == <<" + strings.Join(q, ", ") + ">>\n====\n"
+	return "---- MODULE HostileMC ----\nEXTENDS Hostile\nMCSeedLen == <<" + strings.Join(q, ", ") + ">>\nMCSeedLits == <<" + strings.Join(l, ",\n  ") + ">>\n====\n"
 }
 
 func c10Hash(s string) uint64 {
@@ -292,7 +307,7 @@ func runC10(tier, replay string) int {
 	}
 	c := core.NewCtx("C10", tier, "exploration")
 	c.Cov["rule"] = "Inputs are the scripts of the edit-script state machine spec/Hostile.tla over seed token sequences (the empty document, five tiny programs, the corpus shaders up to 12 KiB): " +
-		"TLC enumerates every single token-level edit of tiny seeds (all positions x the whole token pool) and every single structural construct at the deepest setting, and simulates (seed VERIF_SEED) multi-edit scripts mixing token edits, raw bytes, truncation, " +
+		"TLC enumerates every single token-level edit of tiny seeds (all positions x the whole token pool) and every single structural construct at the deepest setting, and simulates (seed VERIF_SEED) multi-edit scripts mixing token edits, raw bytes, truncation, hostile constant expressions (partial operators x boundary operand grid at every constant-expression site and substituted for the numeric literals of the seeds), " +
 		"nesting (depth up to 20000, clamped to 64 KiB), long chains, huge literals, huge arrays and self-references; each script is rendered (<= 64 KiB) and run through tokenize, parse, lower, validate, every backend (glsl per entry point; two option sets) and the one-call compile " +
 		"in an isolated worker under rlimits; the recorded (stage, outcome, cpu, rss, output bytes) trace of every input is validated by TLC against the protocol spec (outcome in {ok, err}, stage order, cost envelope per size class). A case is one distinct rendered byte string; all of them count as non-trivial."
 	env := c10SelfTest(c)
@@ -307,8 +322,10 @@ func runC10(tier, replay string) int {
 	seeds := c10Seeds()
 	seedLen := make([]int, len(seeds))
 	var tinyIDs, corpusIDs, allIDs []int
+	seedLits := make([][]int, len(seeds))
 	for i, s := range seeds {
 		seedLen[i] = len(s.Elems)
+		seedLits[i] = hostile.NumberPositions(s.Elems)
 		allIDs = append(allIDs, i+1)
 		switch s.Kind {
 		case "tiny":
@@ -321,7 +338,7 @@ func runC10(tier, replay string) int {
 		c.BrokenF("corpus not found (%d seeds)", len(corpusIDs))
 		return c.Finish()
 	}
-	mc := c10MC(seedLen)
+	mc := c10MC(seedLen, seedLits)
 	sd := c.Seed
 	sample := func(mod uint64) func(string) bool {
 		return func(line string) bool { return (c10Hash(line)+uint64(sd))%mod == 0 }
@@ -339,6 +356,10 @@ func runC10(tier, replay string) int {
 			c10Gen{Name: "grid-self", Mode: "exhaustive", Seeds: []int{1}, MaxEdits: 1, Classes: []string{"SelfReference", "RawFill"}, Depths: []int{8}, Lengths: []int{8}},
 			c10Gen{Name: "grid-lit", Mode: "exhaustive", Seeds: []int{1}, MaxEdits: 1, Classes: []string{"HugeLiteral"}, Depths: []int{8}, Lengths: []int{8}, Keep: sample(6)},
 			c10Gen{Name: "grid-array", Mode: "exhaustive", Seeds: []int{1}, MaxEdits: 1, Classes: []string{"HugeArray"}, Depths: []int{8}, Lengths: []int{8}, Keep: sample(48)},
+			// hostile constant expressions: every (operator, operand pair) of the grid in a module constant (every 4th), and simulated over all sites / forms / seeds
+			c10Gen{Name: "ce-grid", Mode: "exhaustive", Seeds: []int{1}, MaxEdits: 1, Classes: []string{"HostileConstExpr"}, Depths: []int{8}, Lengths: []int{8},
+				CECtxs: []string{"const"}, CEForms: []string{"direct"}, CEShapes: []string{"bin", "un", "cast"}, Keep: sample(3)},
+			c10Gen{Name: "ce-sim", Mode: "simulate", Seeds: allIDs, MaxEdits: 2, Classes: []string{"HostileConstExpr"}, Depths: []int{8}, Lengths: []int{8}, Num: 2500, TLCSeed: sd + 2000},
 		)
 	} else {
 		for _, t := range tinyIDs {
@@ -355,6 +376,14 @@ func runC10(tier, replay string) int {
 			c10Gen{Name: "grid-self", Mode: "exhaustive", Seeds: []int{1}, MaxEdits: 1, Classes: []string{"SelfReference", "RawFill"}, Depths: []int{8}, Lengths: []int{8}},
 			c10Gen{Name: "grid-lit", Mode: "exhaustive", Seeds: []int{1}, MaxEdits: 1, Classes: []string{"HugeLiteral"}, Depths: []int{8}, Lengths: []int{8}},
 			c10Gen{Name: "grid-array", Mode: "exhaustive", Seeds: []int{1}, MaxEdits: 1, Classes: []string{"HugeArray"}, Depths: []int{8}, Lengths: []int{8}, Keep: sample(4)},
+			c10Gen{Name: "ce-grid-const", Mode: "exhaustive", Seeds: []int{1}, MaxEdits: 1, Classes: []string{"HostileConstExpr"}, Depths: []int{8}, Lengths: []int{8},
+				CECtxs: []string{"const"}, CEForms: []string{"direct"}},
+			c10Gen{Name: "ce-grid-size", Mode: "exhaustive", Seeds: []int{1}, MaxEdits: 1, Classes: []string{"HostileConstExpr"}, Depths: []int{8}, Lengths: []int{8},
+				CECtxs: []string{"arraysize"}, CEForms: []string{"direct"}, CEShapes: []string{"bin", "un", "cast", "call2"}},
+			c10Gen{Name: "ce-grid-named", Mode: "exhaustive", Seeds: []int{1}, MaxEdits: 1, Classes: []string{"HostileConstExpr"}, Depths: []int{8}, Lengths: []int{8},
+				CECtxs: []string{"caseval"}, CEForms: []string{"named"}, CEShapes: []string{"bin", "un"}},
+			c10Gen{Name: "ce-sim0", Mode: "simulate", Seeds: allIDs, MaxEdits: 2, Classes: []string{"HostileConstExpr"}, Depths: []int{8}, Lengths: []int{8}, Num: 10000, TLCSeed: sd + 2000},
+			c10Gen{Name: "ce-sim1", Mode: "simulate", Seeds: allIDs, MaxEdits: 2, Classes: []string{"HostileConstExpr"}, Depths: []int{8}, Lengths: []int{8}, Num: 10000, TLCSeed: sd + 2001},
 		)
 	}
 
